@@ -115,7 +115,6 @@ func c22NewEnv(t *testing.T) *c22Env {
 // ---------------------------------------------------------------- scenario
 
 const c22K = 6
-const c22BreakAfterClear = false
 
 type c22Change struct {
 	Off uint64 `json:"off"`
@@ -472,7 +471,7 @@ func (s *c22Scn) doRequest() {
 				*dst = append(*dst, s.doW(w, true))
 				if w.kind == "clear" {
 					s.winClear = true
-					if afterRead && c22BreakAfterClear {
+					if afterRead {
 						break
 					}
 				}
@@ -849,27 +848,6 @@ func TestVerifC22(t *testing.T) {
 				s.vis[k] = true
 			}
 			forced = []string{"pub0", "pub1", "pub2", "req", "req-clear-before-stream-read", "check", "req", "req", "check"}
-		case 4: // corpus: the channel is cleared while the client pages through the stream, the new epoch then grows past its offset
-			s.size, s.limit = 100, 1
-			e.mu.Lock()
-			e.mapOpts[s.ch] = MapChannelOptions{Mode: MapModeRecoverable, KeyTTL: 600 * time.Second, MinPageSize: 1, StreamSize: 100}
-			e.mu.Unlock()
-			s.filter = false
-			for k := range s.vis {
-				s.vis[k] = true
-			}
-			forced = []string{"pub0", "pub1", "pub2", "pub3", "pub4", "pub5", "req"}
-			for j := 0; j < 10; j++ {
-				forced = append(forced, "pub0")
-			}
-			forced = append(forced, "req", "req", "req", "req", "req", "req", "clear", "req")
-			for j := 0; j < 16; j++ {
-				forced = append(forced, "pub1")
-			}
-			for j := 0; j < 12; j++ {
-				forced = append(forced, "req")
-			}
-			forced = append(forced, "check")
 		}
 		if forced != nil {
 			for _, f := range forced {
